@@ -206,9 +206,11 @@ type Schema struct {
 	OneOf                []*Schema          `json:"oneOf,omitempty"`
 	Discriminator        *Discriminator     `json:"discriminator,omitempty"`
 	// keywords goag accepts and ignores (outside every oracle)
-	Enum    []any    `json:"enum,omitempty"`
-	Minimum *float64 `json:"minimum,omitempty"`
-	Pattern string   `json:"pattern,omitempty"`
+	Enum      []any    `json:"enum,omitempty"`
+	ReadOnly  bool     `json:"readOnly,omitempty"`
+	WriteOnly bool     `json:"writeOnly,omitempty"`
+	Minimum   *float64 `json:"minimum,omitempty"`
+	Pattern   string   `json:"pattern,omitempty"`
 }
 
 type Discriminator struct {
